@@ -62,14 +62,27 @@ pub fn replay_print(case: &J, rep: &mut Report, trace: &mut Vec<J>) {
         Err(p) => return rep.mismatch(&key, json!({"engine": "print", "case": case, "why": format!("Display panicked: {}", panic_msg(p))})),
     };
     trace.push(json!({"tree": tree, "text": cps(&text)}));
+    // reading the rendering back must not depend on what the parser was given before: first a text it rejects in the
+    // middle of a string constant (and one it rejects inside a \u escape), then the rendering
+    let _ = catch_unwind(AssertUnwindSafe(|| Expr::parse("b == \"overdue\\q\"")));
+    let _ = catch_unwind(AssertUnwindSafe(|| Expr::parse("\"ab\\u{4\"")));
     let back = catch_unwind(AssertUnwindSafe(|| Expr::parse(&text))).map_err(panic_msg);
-    let verdict = match &back {
+    let mut verdict = match &back {
         Err(p) => Err(format!("parsing the rendering panicked: {p}")),
         Ok(Err(err)) => Err(format!("the rendering does not parse: {err}")),
         Ok(Ok(p)) => tree_matches(tree, p)
             .map_err(|w| format!("the rendering parses to a different expression ({w}): {p:?}"))
             .and_then(|_| if *p == e || has_nan(tree) { Ok(()) } else { Err("re-parsed expression is not equal (PartialEq) to the original".to_string()) }),
     };
+    // the rendering is also the body of a rule: Rule::parse of a name line plus the rendering holds the same expression
+    if verdict.is_ok() {
+        let rule_text = format!("// printed\n{text}");
+        verdict = match catch_unwind(AssertUnwindSafe(|| reval::prelude::Rule::parse(&rule_text))).map_err(panic_msg) {
+            Err(p) => Err(format!("Rule::parse of the rendering panicked: {p}")),
+            Ok(Err(err)) => Err(format!("the rendering does not parse as the body of a rule: {err}")),
+            Ok(Ok(r)) => tree_matches(tree, r.expr()).map_err(|w| format!("as the body of a rule the rendering parses to a different expression ({w}): {:?}", r.expr())),
+        };
+    }
     match verdict {
         Ok(()) => rep.case_ok(true, || json!({"expr": format!("{e:?}"), "rendering": text})),
         Err(why) if why.starts_with("TOOL:") => rep.tool_error(why),
